@@ -14,8 +14,8 @@ NOTE = ("Trusted: Coq 8.16.1 kernel (coqc; coqchk re-check in the thorough tier)
         "theorems are in exact arithmetic (commutative-ring scalars where noted), rounding is not modelled.")
 
 TEXT = {
- "C01": ("proof", "Theorems (Props/C01.v abstract engine; Props/C01concrete.v concrete array engine over a commutative ring): the consumer-count driven depth-first engine computes exactly the adjoint table of the topological sweep, and for every store a program history can reach (store_good and value_consistent are invariants of all 27 instructions) the gradients stored on the leaves satisfy <seed, forward (dual-number) tangent of the result> = sum over leaves <gradient, leaf tangent>, for any sharing, depth and seed (C01_backward_exact); with unit tangents each gradient component is the seed-weighted partial derivative (C01_partial_derivatives). The local transpose identity of every built-in closure is proved (Props/C02*.v); `supported` is discharged for graphs over the ring closures (and div/ln/recip under the real-number division laws); PARTIAL: discharging it for matmul/unroll/expand/sigmoid/custom nodes inside C01concrete (identities proved, plumbing in progress), rank-1 matmul forms, and user closures (hypothesis by nature). Correspondence: exhaustive small DAGs, random programs over every operation, README control flow, self-sum chains; corgi's gradients are compared with the model and, independently, with the model's dual-number (forward-mode) evaluation.", "6 C01"),
- "C02": ("proof", "Theorems (Props/C02.v, Props/C02more.v, commutative-ring scalars): for add, mul, div (arbitrary broadcasting, every flag combination), neg, scale, powf with ANY exponent, ln, exp, reciprocal, sum(k), reshape, relu, matmul (all flag pairs, leading broadcast, every additive-term form), unroll_blocks (summing roll: overlapping windows), expand_conv, sigmoid and the harness's user closures, the delivered (flattened) deltas are the transpose-Jacobian of the dual-number forward run applied to the seed; Props/C02real.v (Coq Reals + Coquelicot; axioms: the stdlib's real-number axioms and Classical_Prop.classic): the dual-number rules are the mathematical derivatives (is_derive) incl. non-integer exponents at positive base and integer exponents at negative base, relu away from 0 (not differentiable at 0: convention). Not covered: rank-1 matmul forms. Correspondence: single-operation programs for every operation x parameterisation x shapes; gradients vs model and vs the dual-number directional derivative.", "6 C02"),
+ "C01": ("proof", "Theorems (Props/C01full.v, C01concrete.v, C01.v): for EVERY state a program history can reach (all 27 instructions; store_good, value_consistent and the closure side conditions are invariants) and every graph built from corgi's operations - any sharing, diamonds, self-products, depth - a successful backward(seed) leaves gradients with <seed, dual-number (forward-mode) tangent of the result> = sum over leaves <gradient, leaf tangent>; with unit tangents each gradient component is the seed-weighted partial derivative: every path counted exactly once (C01_every_history_all_forms; over the reals with no scalar hypothesis: ..._reals). Every built-in closure's local transpose identity and liftability is proved (add, mul, div, neg, scale, powf, ln, exp, reciprocal, sum, reshape, relu, sigmoid, matmul incl. vector and dot-product forms, unroll, expand, the harness's user closures; hence sub, axpy, softmax, conv, layers, costs). Also: the depth-first consumer-count engine = the topological sweep (abstract). Side conditions: explicit seeds have the result's shape, sum(k) with k<=rank, matmul/conv/softmax operands in the shapes the property names, rank-0 arrays excluded; arbitrary user closures by hypothesis (their local identity). Scalars: commutative ring + division/power/sigmoid laws (all proved for the reals). Correspondence: exhaustive small DAGs, random programs over every operation, README control flow, self-sum chains; corgi's gradients compared with the model and, independently, with the model's dual-number evaluation.", "6 C01"),
+ "C02": ("proof", "Theorems (Props/C02.v, C02more.v, commutative-ring scalars): for add, mul, div (arbitrary broadcasting, every flag combination), neg, scale, powf with ANY exponent, ln, exp, reciprocal, sum(k), reshape, relu, sigmoid, matmul (all flag pairs, leading broadcast, every additive-term form, and the vector x matrix / matrix x vector / dot-product forms), unroll_blocks (summing roll: overlapping windows), expand_conv and the harness's user closures, the delivered (flattened) deltas are the transpose-Jacobian of the dual-number forward run applied to the seed (conv, softmax, sub, axpy are compositions, covered through C01); Props/C02real.v (Coq Reals + Coquelicot; axioms: the stdlib's real-number axioms and Classical_Prop.classic): the dual-number rules are the mathematical derivatives (is_derive) incl. non-integer exponents at positive base and integer exponents at negative base; relu away from 0 (provably not differentiable at 0: the code's 0 is a convention). Correspondence: single-operation programs for every operation x parameterisation x shapes; gradients vs model and vs the dual-number directional derivative.", "6 C02"),
  "C03": ("proof", "Theorems (Props/C03.v, Props/C03hist.v): flatten_to (applied to every contribution) returns exactly the target dims and the sum of the delta over the broadcast positions, and is the transpose of broadcasting; in EVERY state reached by ANY program every stored gradient is well formed with exactly its array's dimensions (step_good for all 27 instructions; side condition: explicit seeds have the result's shape). Correspondence: every broadcast-compatible shape pair with the operand used 1-3 times, repeated passes; gradient dims and the summed seed also evaluated directly on corgi's output.", "6 C03"),
  "C04": ("proof", "Theorems (Props/C04.v, any scalar type, all shapes/values): result dimensions exist exactly for right-aligned compatible pairs and are the "
          "pairwise maximum; every element is f of the operands' elements at the broadcast-clamped index; incompatible pairs are refused; instances "
